@@ -34,7 +34,22 @@ func c04Typed(x *core.Ctx, r *core.Rand, rn *model.Renderer, i int) {
 			for k := 0; k < 1+r.Intn(3); k++ {
 				dgen.Faults[r.Intn(len(dgen.Faults))].Do(dgen.NewFCtx(r, mg, doc))
 			}
-			c := core.NewCase("validate", "schema", rn.RenderSDoc(&model.SDoc{Items: items}), "doc", rn.RenderDoc(doc))
+			// the same document once more as two texts: the operations (a named file) and the fragments (an in-memory snippet
+			// without a name, pushed down by more lines than the operations file has)
+			var ops, frags []*model.Def
+			for _, d := range doc.Defs {
+				if d.IsFragment {
+					frags = append(frags, d)
+				} else {
+					ops = append(ops, d)
+				}
+			}
+			opsText, fragText := "", ""
+			if len(ops) > 0 && len(frags) > 0 {
+				opsText = rn.RenderDoc(&model.Doc{Defs: ops})
+				fragText = strings.Repeat("\n", 1+strings.Count(opsText, "\n")+strings.Count(opsText, "\r")) + rn.RenderDoc(&model.Doc{Defs: frags})
+			}
+			c := core.NewCase("validate", "schema", rn.RenderSDoc(&model.SDoc{Items: items}), "doc", rn.RenderDoc(doc), "ops", opsText, "frags", fragText)
 			x.Do(c, func() { c04CheckTyped(x, c) })
 			return
 		}
@@ -108,6 +123,39 @@ func c04CheckTyped(x *core.Ctx, c *core.Case) {
 		}
 		// the validated tree now also points into the schema's sources: every position must still be truthful
 		pc.walkPositions(doc, false)
+		if c.Get("ops") == "" {
+			return
+		}
+		// an executable document assembled from two sources: every error names the source its location is in
+		osrc := &ast.Source{Name: c20Name(c.Get("ops")) + ".operations", Input: c.Get("ops")}
+		fsrc := &ast.Source{Name: "", Input: c.Get("frags")}
+		if len(c.Get("ops"))%3 == 0 {
+			fsrc.Name = "fragments of " + osrc.Name
+		}
+		pc2 := newPosChecker(x, validator.Prelude, ssrc, osrc, fsrc)
+		od, oerr := parser.ParseQuery(osrc)
+		fd, ferr := parser.ParseQuery(fsrc)
+		if oerr != nil || ferr != nil || !pc2.sources[osrc].lexOK || !pc2.sources[fsrc].lexOK {
+			return
+		}
+		if len(c.Get("frags"))%2 == 0 {
+			od.Fragments = append(od.Fragments, fd.Fragments...)
+		} else {
+			od.Fragments = append(append(ast.FragmentDefinitionList{}, fd.Fragments...), od.Fragments...)
+		}
+		errs2 := validator.Validate(schema, od)
+		x.Count("validated_two_source_documents")
+		for _, e := range errs2 {
+			if len(e.Locations) == 0 {
+				continue
+			}
+			x.Count("two_source_validation_error_locations")
+			if f, _ := e.Extensions["file"].(string); f == fsrc.Name {
+				x.Count("two_source_errors_in_the_fragments_source")
+			}
+			pc2.checkErrorLocation("validate-two-sources:"+e.Rule, e, nil)
+		}
+		pc2.walkPositions(od, false)
 		return
 	}
 	if c.Kind != "load" {
